@@ -123,7 +123,8 @@ func init() {
 	reg(`github.com/innovationb1ue/RedisGO/logger.Debug github.com/innovationb1ue/RedisGO/logger.Info
 	     github.com/innovationb1ue/RedisGO/logger.Warning github.com/innovationb1ue/RedisGO/logger.Error
 	     github.com/innovationb1ue/RedisGO/logger.Panic github.com/innovationb1ue/RedisGO/logger.Disable
-	     log.Println log.Printf log.Print fmt.Println fmt.Printf fmt.Print fmt.Fprintf fmt.Fprintln fmt.Fprint
+	     github.com/innovationb1ue/RedisGO/logger.SetUp
+	     log.Println log.Printf log.Print fmt.Println fmt.Printf fmt.Print
 	     (*log.Logger).Println (*log.Logger).Printf (*log.Logger).Print (*log.Logger).SetPrefix (*log.Logger).SetOutput
 	     runtime.Gosched runtime.GC runtime.KeepAlive runtime.SetFinalizer`, noop)
 	reg(`log.Fatal log.Fatalf log.Fatalln (*log.Logger).Fatal (*log.Logger).Fatalf (*log.Logger).Fatalln os.Exit`,
@@ -138,14 +139,45 @@ func init() {
 
 	// ---- fmt
 	reg(`fmt.Sprintf`, func(in *Interp, th *Thread, fn *ssa.Function, args []Value) (Value, bool) {
-		return in.sprintf(in.str(args[0]), args[1].(Slice)), true
+		f := in.str(args[0])
+		return in.sprintf(f, in.stringerize(th, f, args[1].(Slice))), true
 	})
 	reg(`fmt.Sprint fmt.Sprintln`, func(in *Interp, th *Thread, fn *ssa.Function, args []Value) (Value, bool) {
-		return Str{S: "<fmt.Sprint>"}, true
+		return in.sprint(th, args[0].(Slice), fn.Name() == "Sprintln"), true
 	})
 	reg(`fmt.Errorf`, func(in *Interp, th *Thread, fn *ssa.Function, args []Value) (Value, bool) {
-		s := in.sprintf(in.str(args[0]), args[1].(Slice))
+		f := in.str(args[0])
+		s := in.sprintf(f, in.stringerize(th, f, args[1].(Slice)))
 		return in.newError(s), true
+	})
+	// printing into an in-memory buffer (the String()/Describe methods of the etcd tree) writes the text;
+	// printing anywhere else (stdout, files, sockets) has no effect
+	reg(`fmt.Fprintf fmt.Fprint fmt.Fprintln`, func(in *Interp, th *Thread, fn *ssa.Function, args []Value) (Value, bool) {
+		w, ok := args[0].(Iface)
+		if !ok || w.T == nil {
+			return in.zeroResults(fn), true
+		}
+		ts := w.T.String()
+		if ts != "*strings.Builder" && ts != "*bytes.Buffer" {
+			return in.zeroResults(fn), true
+		}
+		var text Str
+		switch fn.Name() {
+		case "Fprintf":
+			f := in.str(args[1])
+			text = in.sprintf(f, in.stringerize(th, f, args[2].(Slice)))
+		case "Fprint":
+			text = in.sprint(th, args[1].(Slice), false)
+		default:
+			text = in.sprint(th, args[1].(Slice), true)
+		}
+		sel := in.P.Prog.MethodSets.MethodSet(w.T).Lookup(nil, "WriteString")
+		if sel == nil {
+			return in.zeroResults(fn), true
+		}
+		m := in.P.Prog.MethodValue(sel)
+		in.callSync(th, FuncV{Fn: m}, []Value{w.V, text})
+		return Tuple{in.i64(int64(text.Len())), Iface{}}, true
 	})
 
 	// ---- strings / bytes with assembly leaves
@@ -482,6 +514,128 @@ func (in *Interp) sprintf(format Str, args Slice) Str {
 	}
 	return Str{S: "<fmt:" + format.S + ">"}
 }
+
+// stringerize replaces, for the %s and %v verbs of a concrete format, operands whose dynamic type is
+// declared in the code under test and has a String() string / Error() string method by the result of
+// calling that method (from its SSA), as fmt does.
+func (in *Interp) stringerize(th *Thread, format Str, args Slice) Slice {
+	if !format.IsConcrete() || args.Len == 0 {
+		return args
+	}
+	var verbs []byte
+	f := format.S
+	for i := 0; i < len(f); i++ {
+		if f[i] != '%' {
+			continue
+		}
+		i++
+		for i < len(f) && strings.IndexByte("+-# 0123456789.", f[i]) >= 0 {
+			i++
+		}
+		if i < len(f) && f[i] != '%' {
+			verbs = append(verbs, f[i])
+		}
+	}
+	want := make([]bool, args.Len)
+	any := false
+	for i := range want {
+		want[i] = i < len(verbs) && (verbs[i] == 's' || verbs[i] == 'v')
+		any = any || want[i]
+	}
+	if !any {
+		return args
+	}
+	return in.stringerizeSel(th, args, want)
+}
+
+func (in *Interp) stringerizeSel(th *Thread, args Slice, want []bool) Slice {
+	var out *Agg
+	for i := 0; i < args.Len; i++ {
+		if want != nil && !want[i] {
+			continue
+		}
+		iv, ok := args.Arr.V[args.Off+i].(Iface)
+		if !ok || iv.T == nil {
+			continue
+		}
+		var named *types.Named
+		switch t := iv.T.(type) {
+		case *types.Named:
+			named = t
+		case *types.Pointer:
+			named, _ = t.Elem().(*types.Named)
+			if p, ok := iv.V.(Ptr); ok && p.Base == nil {
+				continue // nil pointer receiver: fmt prints <nil>
+			}
+		}
+		if named == nil || named.Obj().Pkg() == nil {
+			continue
+		}
+		path := named.Obj().Pkg().Path()
+		if !strings.HasPrefix(path, "go.etcd.io/etcd/") && !strings.HasPrefix(path, "github.com/innovationb1ue/RedisGO") {
+			continue
+		}
+		var m *ssa.Function
+		for _, name := range []string{"Error", "String"} {
+			sel := in.P.Prog.MethodSets.MethodSet(iv.T).Lookup(nil, name)
+			if sel == nil {
+				continue
+			}
+			if c := in.P.Prog.MethodValue(sel); c != nil && c.Signature.Params().Len() == 0 && c.Signature.Results().Len() == 1 && types.Identical(c.Signature.Results().At(0).Type(), types.Typ[types.String]) {
+				m = c
+				break
+			}
+		}
+		if m == nil || len(m.Blocks) == 0 {
+			continue
+		}
+		res, ok := in.callSync(th, FuncV{Fn: m}, []Value{iv.V}).(Str)
+		if !ok {
+			continue
+		}
+		if out == nil {
+			out = &Agg{V: append([]Value(nil), args.Arr.V[args.Off:args.Off+args.Len]...)}
+		}
+		out.V[i] = Iface{T: types.Typ[types.String], V: res}
+	}
+	if out == nil {
+		return args
+	}
+	return Slice{Arr: out, Off: 0, Len: args.Len, Cap: args.Len}
+}
+
+// sprint models fmt.Sprint / Sprintln: exact when every operand is concrete (strings stay adjacent,
+// other operands are separated by a space, as fmt does), a placeholder otherwise.
+func (in *Interp) sprint(th *Thread, args Slice, ln bool) Str {
+	orig := args
+	args = in.stringerizeSel(th, args, nil)
+	var gargs []interface{}
+	for i := 0; i < args.Len; i++ {
+		iv, ok := args.Arr.V[args.Off+i].(Iface)
+		if !ok {
+			return Str{S: "<fmt.Sprint>"}
+		}
+		g, ok := in.toGo(iv)
+		if !ok {
+			return Str{S: "<fmt.Sprint>"}
+		}
+		if s, isStr := g.(string); isStr {
+			// an operand that was a Stringer counts as a non-string operand for fmt's spacing rule
+			if oi, ok := orig.Arr.V[orig.Off+i].(Iface); ok && oi.T != nil && !types.Identical(oi.T.Underlying(), types.Typ[types.String]) {
+				g = sprintStringer(s)
+			}
+		}
+		gargs = append(gargs, g)
+	}
+	if ln {
+		return Str{S: fmt.Sprintln(gargs...)}
+	}
+	return Str{S: fmt.Sprint(gargs...)}
+}
+
+type sprintStringer string
+
+func (s sprintStringer) String() string { return string(s) }
 
 func (in *Interp) sprintfSym(format string, args Slice) (Str, bool) {
 	res := Str{}
